@@ -6,8 +6,11 @@ use std::borrow::Cow;
 use std::net::SocketAddr;
 pub use std::sync::atomic::Ordering;
 
-use vcoll::vvec::VVec;
-use vcoll::BTreeMap;
+// real std collections: every harness of this unit fixes presence and addresses concretely, so CBMC
+// executes the std B-tree / Vec code by constant propagation (vcoll stand-ins made the composite
+// function exceed 24 GB)
+use std::collections::BTreeMap;
+use std::vec::Vec as VVec;
 
 pub type Nodes = VVec<SocketAddr>;
 
